@@ -20,7 +20,10 @@ TIE_THEOREMS = ["Tie.Command.%s" % n for n in
                  "std_rows_traced", "dev_rows_traced", "inst_rows_traced")] + \
                ["Tie.Event.%s_%s_tie" % (f, sc) for f in ("ev", "evLight", "evOcc")
                 for sc in ("device", "deviceInstance", "deviceGroup", "instanceGroup", "inst")] + \
-               ["Tie.Special.specialParam_tie", "Tie.Special.specialNoParam_tie", "Tie.Special.special_rows_traced"]
+               ["Tie.Special.%s" % n for n in
+                ("specialParam_tie", "specialNoParam_tie", "shortSpecial_tie", "shortSpecialMask_tie",
+                 "initialiseAddr_tie", "initialiseBroadcastAddr_tie", "initialiseBroadcast_tie",
+                 "initialiseUnaddressed_tie", "special_rows_traced")]
 THEOREMS = ["table_conforms", "rows_registered", "frame_is_standard", "frame_is_standard_gen",
             "extended_commands_carry_devicetype", "address_patterns"]
 TRUSTED = ["Spec/IEC62386.lean: 322 rows of the IEC 62386 command tables (parts 102, 103, 202, 205, 206, 207, 209, "
